@@ -474,6 +474,29 @@ def tap_plain(ctx, tid):
     return _tap
 
 
+def sched_tag(ctx, mode):
+    """An operator of the *user* (harness side) that depends on the subscribe-time scheduler, as rx's time operators do: every
+    item becomes (item, 'given' | 'other' | 'none') according to the scheduler this operator was subscribed with."""
+    def _op(source):
+        def _subscribe(observer, scheduler=None):
+            want = ctx.extra.get('the_scheduler')
+            tag = 'none' if scheduler is None else ('given' if scheduler is want else 'other')
+
+            def on_next(i):
+                if mode == 'mux':
+                    if type(i).__name__ == 'OnNextMux':
+                        i = i._replace(item=(i.item, tag))
+                    observer.on_next(i)
+                else:
+                    observer.on_next((i, tag))
+            return source.subscribe(on_next=on_next, on_error=observer.on_error, on_completed=observer.on_completed, scheduler=scheduler)
+        if mode == 'mux':
+            import rxsci as rs
+            return rs.MuxObservable(_subscribe)
+        return rx.create(_subscribe)
+    return _op
+
+
 def tap(ctx, tid, mode):
     return tap_mux(ctx, tid) if mode == 'mux' else tap_plain(ctx, tid)
 
@@ -568,7 +591,7 @@ def drive_hot(ctx, build, items, end='complete', mk_item=None, driver='hot'):
                 else:
                     obs = build(subject)
                     disp = obs.subscribe(on_next=final.on_next, on_error=final.on_error,
-                                         on_completed=final.on_completed)
+                                         on_completed=final.on_completed, scheduler=ctx.extra.get('the_scheduler'))
                     # subscriptions that the case wants made after the data stream was subscribed (still before the first item)
                     for late in ctx.extra.pop('after_subscribe', ()):
                         late()
